@@ -117,7 +117,7 @@ PROPS["C07"] = dict(
 )
 
 PROPS["C18"]["steps"].append(
-    dict(kind="kani", crate="humphrey_ws", module="in_ws", tag="c18", jobs=10, harnesses=[
+    dict(kind="kani", crate="humphrey_ws", module="in_ws", tag="c18", jobs=8, harnesses=[
         H("c18_b64_alphabet", "complete", "the constant ALPHABET is RFC 4648 table 1 (discharges the assumption of the Verus unit c18_b64enc), all 64 entries", timeout=600),
         H("c18_b64_decode_group_complete", "complete", "Base64 decode of one 4-symbol group over every ASCII byte in every position: RFC 4648 value, or Err for foreign symbols / misplaced padding", bound="one group (complete for a group)", timeout=600),
         H("c18_b64_decode_bad_length_1", "complete", "input of length 1 (not a multiple of 4) over the alphabet is rejected", timeout=600),
@@ -130,7 +130,10 @@ PROPS["C18"]["steps"].append(
         H("c18_b64_decode_inverts_n3", "bounded", "decode(b64(x)) == x, |x| = 3", bound="|x| = 3", timeout=600),
         H("c18_b64_decode_inverts_n4", "bounded", "decode(b64(x)) == x, |x| = 4 (two groups)", bound="|x| = 4", timeout=600),
         H("c18_b64_decode_inverts_n6", "bounded", "decode(b64(x)) == x, |x| = 6 (two groups)", bound="|x| = 6", timeout=600),
-    ] + [
+    ]))
+# separate step with 2 jobs: the CBMC output of a SHA-1 harness is large enough for kani-driver itself to run out of memory when many are parsed in parallel (measured)
+PROPS["C18"]["steps"].append(
+    dict(kind="kani", crate="humphrey_ws", module="in_ws", tag="c18sha", jobs=2, harnesses=[
         H("c18_sha1_pad_n%03d" % n, "bounded", "the REAL SHA1Hash::hash on one %d-byte message equals an independent RFC 3174 transcription (padding rule: 0x80, zeros, "
           "64-bit length, block count) -- the padding depends on the length only, so this decides section 4 of the real code at this length" % n,
           bound="message length %d, one fixed content" % n, tier=("quick" if n in (55, 56) else "thorough"), timeout=1800)
